@@ -119,6 +119,9 @@ impl Digest {
     // [A-digest-data]
     #[verifier::external_body]
     pub fn data(&self) -> (r: &[u8; 32]) ensures r@ == self@ { unimplemented!() }
+    // [A-digest-as-ref]
+    #[verifier::external_body]
+    pub fn as_ref(&self) -> (r: &Digest) ensures *r == *self { unimplemented!() }
     // [A-digest-untagged-cbor] Digest::untagged_cbor = byte string of the 32 bytes
     #[verifier::external_body]
     pub fn untagged_cbor(&self) -> (r: CBOR)
@@ -701,4 +704,87 @@ impl Salt {
     #[verifier::external_body]
     pub fn new_in_range_using<R: RandomNumberGenerator>(range: &std::ops::RangeInclusive<usize>, rng: &mut R) -> (r: Result<Salt>)
     { unimplemented!() }
+}
+
+// ============================================================================ signatures (bc-components signing)
+#[verifier::external_body]
+#[derive(Debug)]
+pub struct Signature { _p: () }
+impl Clone for Signature {
+    #[verifier::external_body]
+    fn clone(&self) -> (r: Self) ensures r == *self { unimplemented!() }
+}
+pub uninterp spec fn signature_cbor(x: Signature) -> CBOR;
+impl vstd::std_specs::convert::FromSpecImpl<Signature> for CBOR {
+    open spec fn obeys_from_spec() -> bool { true }
+    open spec fn from_spec(x: Signature) -> Self { signature_cbor(x) }
+}
+impl From<Signature> for CBOR {
+    #[verifier::external_body]
+    fn from(x: Signature) -> Self { unimplemented!() }
+}
+
+// [A-signature-codec] the CBOR image determines the Signature
+pub broadcast axiom fn axiom_signature_cbor_inj(a: Signature, b: Signature)
+    requires #[trigger] signature_cbor(a) == #[trigger] signature_cbor(b)
+    ensures a == b;
+// [A-signature-codec] decoding a Signature from CBOR is the inverse of its encoding
+impl vstd::std_specs::convert::TryFromSpecImpl<CBOR> for Signature {
+    open spec fn obeys_try_from_spec() -> bool { false }
+    uninterp spec fn try_from_spec(c: CBOR) -> Result<Signature, Error>;
+}
+impl TryFrom<CBOR> for Signature {
+    type Error = Error;
+    #[verifier::external_body]
+    fn try_from(c: CBOR) -> (r: Result<Signature, Error>)
+        ensures r matches Ok(s) ==> signature_cbor(s) == c, (forall|s: Signature| signature_cbor(s) != c) ==> r is Err
+    { unimplemented!() }
+}
+#[verifier::external_body]
+#[derive(Debug)]
+pub struct SigningOptions { _p: () }
+impl Clone for SigningOptions {
+    #[verifier::external_body]
+    fn clone(&self) -> (r: Self) ensures r == *self { unimplemented!() }
+}
+// message arguments (`&dyn AsRef<[u8]>` in bc-components; AsRef is not known to Verus, rule R-subst drops the cast)
+pub trait SignMsg { spec fn msg(&self) -> Seq<u8>; }
+impl SignMsg for [u8; 32] { open spec fn msg(&self) -> Seq<u8> { self@ } }
+impl SignMsg for Digest { open spec fn msg(&self) -> Seq<u8> { self@ } }
+impl<'a> SignMsg for &'a Digest { open spec fn msg(&self) -> Seq<u8> { (**self)@ } }
+// ideal signature scheme: sig_valid(k, s, m) = "s verifies for message m under verification key k"
+pub uninterp spec fn sig_valid(key: int, s: Signature, m: Seq<u8>) -> bool;
+pub trait Signer {
+    // the verification key that matches this signing key
+    spec fn vkey(&self) -> int;
+    // [A-sign-correct] a produced signature verifies under the matching key; [A-sign-ok] signing does not fail
+    fn sign_with_options(&self, message: &dyn SignMsg, options: Option<SigningOptions>) -> (r: Result<Signature>)
+        ensures r matches Ok(s) && sig_valid(self.vkey(), s, message.msg());
+}
+pub trait Verifier {
+    spec fn vkey(&self) -> int;
+    // [A-verify] Verifier::verify decides sig_valid for its key
+    fn verify(&self, signature: &Signature, message: &dyn SignMsg) -> (r: bool)
+        ensures r == sig_valid(self.vkey(), *signature, message.msg());
+}
+
+// Iterator::find_map on a slice iterator: VERIFIED helper (rule R-iter-find_map)
+pub fn slice_find_map<T, B, P: Fn(&T) -> Option<B>>(s: &[T], p: P) -> (r: Option<B>)
+    requires forall|x: &T| call_requires(p, (x,)),
+    ensures
+        r matches Some(v) ==> exists|i: int| 0 <= i < s@.len() && call_ensures(p, (&#[trigger] s@[i],), Some(v))
+            && forall|j: int| 0 <= j < i ==> call_ensures(p, (&#[trigger] s@[j],), None::<B>),
+        r is None ==> forall|j: int| 0 <= j < s@.len() ==> call_ensures(p, (&#[trigger] s@[j],), None::<B>),
+{
+    let mut i: usize = 0;
+    while i < s.len()
+        invariant i <= s@.len(), forall|x: &T| call_requires(p, (x,)),
+            forall|j: int| 0 <= j < i ==> call_ensures(p, (&#[trigger] s@[j],), None::<B>),
+        decreases s@.len() - i
+    {
+        let o = p(&s[i]);
+        if o.is_some() { return o; }
+        i += 1;
+    }
+    None
 }
